@@ -300,9 +300,10 @@ can mean for them), never a constant.
 * `rms²`  `fl(Σy²/N) − fl(2m̂·fl(S/N)) + fl(m̂²)`:        `16u·(Σy²/N + 2|m·S/N| + m²)`, and the square
           root adds a relative `4u` on the reported value's square
 * `coef`  a length-`L` inner product in any order:    `2(L+2)u·Σ_j |P_kj x_j|`
-* `resid` propagation of the coefficient error through `B`, the `K`-term products, the subtraction
-          and the two-pass standard deviation; compared as `(s−T)₊² ≤ var ≤ (s+T)²` (no square root
-          of a rational is ever taken).
+* `resid` the rounding of the CORRECT algorithm (`MulVec`, `SubVec`, two-pass `stdDev`), see `residBand`:
+          relative `≈ L·u` on the standard deviation plus the (tiny, measured) effect of the legitimately
+          rounded coefficients — NOT an absolute tolerance proportional to the residual's mean.  Compared
+          as `lo² ≤ var ≤ hi²` (no square root of a rational is ever taken).
 -/
 
 def u53 : Q := 1 / ((2 ^ 53 : Nat) : Q)
@@ -316,32 +317,62 @@ def maxAbs (xs : List Q) : Q := xs.foldl (fun m v => maxQ m (absQ v)) 0
 /-- error bound of one computed coefficient -/
 def coefTol (row x : List Q) : Q := 2 * ((x.length : Q) + 2) * u53 * sumAbsProd row x
 
-/-- bound `T` on `|computed std − true std|` of the residual (see the comment above).
-`c` = exact coefficients, `ec` = their error bounds, `r` = exact residual. -/
-def residTolOf (B : List (List Q)) (x c ec r : List Q) : Q :=
+/-- The band `[lo, hi]` in which the true residual standard deviation `σ = √var` must lie when a CORRECT
+float64 implementation (matrix-vector product, subtraction, two-pass `stdDev`) reports `s`.
+
+Notation: `c` exact coefficients `P·x`, `ĉ` the coefficients the implementation reported (already judged
+within `coefTol`), `r = x − B·c` the exact residual, `r̂` the computed one, `u = 2⁻⁵³`.
+
+1. *Rounded coefficients.*  `r̃ = x − B·ĉ` differs from `r` by `B·(ĉ − c)`; the standard deviation is a
+   seminorm, so `|σ(r̃) − σ(r)| ≤ max_i |Σ_k B_ik (ĉ_k − c_k)| =: D` — computed EXACTLY from the reported
+   coefficients (it is of the order of the actual rounding of the coefficients, ~`√L·u·|P||x||B|`).
+2. *`MulVec` and `SubVec` on `ĉ`.*  `|r̂_i − r̃_i| ≤ 2(K+2)u·Σ_k|B_ik ĉ_k| + u|r̂_i| ≤ 2(K+3)u·g_i + 2u|x_i|`
+   with `g_i = Σ_k|B_ik ĉ_k|`; `E₂ := max_i` of that; again `|σ(r̂) − σ(r̃)| ≤ E₂`.  `A := D + E₂`.
+3. *Two-pass `stdDev` of `r̂`.*  The computed mean is off by `|δ| ≤ 2(L+2)u·max|r̂|`; then
+   `Σ(r̂_i − mean)² /L = var(r̂) + δ²` — the error of the mean enters only QUADRATICALLY (that is the point of
+   the second pass) — and the sums, the division and the square root add a relative `ε = 2(L+6)u`.
+   Hence `σ(r̂)(1−ε) ≤ s ≤ √(σ(r̂)² + δ²)·(1+ε)`.
+
+Solving for `σ`:  `σ ≤ s(1+2ε) + A =: hi`  (using `1/(1−ε) ≤ 1+2ε`, `ε ≤ ½`, i.e. `L < 2⁵⁰`), and
+`σ ≥ √(s₁² − δ²) − A ≥ s₁ − δ²/s₁ − A =: lo` with `s₁ = s(1−ε) ≤ s/(1+ε)` (`t ↦ t − δ²/t` is increasing).
+For a residual with mean 60000 and spread 0.3 over 1000 samples this is a relative tolerance of about
+`10⁻⁹` on `σ`; a one-pass `√(<a²> − <a>²)` is off by `10⁻⁵ … 10⁻³` there. -/
+def residBand (B : List (List Q)) (x c chat r : List Q) (s : Q) : Q × Q :=
   let K : Q := (c.length : Q)
   let L : Q := (x.length : Q)
-  let cb := List.zipWith (fun ck ek => absQ ck + ek) c ec          -- bound on |ĉ_k|
-  let g := B.map fun row => sumQ (List.zipWith (fun b v => absQ b * v) row cb)   -- bound on Σ|B_ik ĉ_k|
-  let pe := B.map fun row => sumQ (List.zipWith (fun b e => absQ b * e) row ec)  -- propagated coef error
-  let e := List.zipWith (fun (pg : Q × Q) xi => pg.1 + 2 * (K + 3) * u53 * pg.2 + 2 * u53 * absQ xi) (pe.zip g) x
-  let E := maxAbs e
-  let Rm := maxAbs r + E
-  E + 4 * (L + 6) * u53 * Rm
+  let dc := List.zipWith (fun a b => a - b) chat c
+  let D := maxAbs (B.map fun row => Spec.dot row dc)
+  let g := B.map fun row => sumAbsProd row chat
+  let E2 := maxAbs (List.zipWith (fun gi xi => 2 * (K + 3) * u53 * gi + 2 * u53 * absQ xi) g x)
+  let A := D + E2
+  let Rm := maxAbs r + A
+  let dl := 2 * (L + 2) * u53 * Rm
+  let ep := 2 * (L + 6) * u53
+  let s1 := s * (1 - ep)
+  let lo0 := if s1 ≤ 0 then 0 else s1 - dl * dl / s1 - A
+  (if lo0 < 0 then 0 else lo0, s * (1 + 2 * ep) + A)
 
 /-- The exact reference values of the linear-model part, from the DEFINITIONS, with their tolerances. -/
 structure MatRef where
+  B : List (List Q)
+  x : List Q
   c : List Q        -- `Spec.coefs P x`
   ec : List Q       -- per-coefficient tolerance
+  r : List Q        -- `Spec.residual x B c`
   rvar : Q          -- `Spec.residVar P B x`
-  rtol : Q
 deriving Repr
 
 def mkMatRef (P B : List (List Q)) (x : List Q) : MatRef :=
   let c := Spec.coefs P x
   let ec := P.map fun row => coefTol row x
   let r := Spec.residual x B c
-  { c := c, ec := ec, rvar := Spec.popVar r, rtol := residTolOf B x c ec r }
+  { B := B, x := x, c := c, ec := ec, r := r, rvar := Spec.popVar r }
+
+/-- the finite values of the reported coefficients -/
+def finVals : List FV → List Q
+  | [] => []
+  | .fin q :: r => q :: finVals r
+  | _ :: r => finVals r
 
 /-! ## The implementation's output and the oracle -/
 
@@ -368,12 +399,12 @@ def chkVal (sig : String) (impl : FV) (dfn tol : Q) : Option String :=
   | .nan => some s!"{sig}-nan NaN reported where the definition is finite"
   | .inf _ => some s!"{sig}-inf infinity reported where the definition is finite"
 
-/-- a reported non-negative root `s` of a quantity whose exact square is `v`: `(s−T)₊² ≤ v ≤ (s+T)²` -/
-def chkRoot (sig : String) (impl : FV) (v T : Q) : Option String :=
+/-- a reported non-negative root `s` of a quantity whose exact square is `v`: `lo² ≤ v ≤ hi²` for the band of `s` -/
+def chkRoot (sig : String) (impl : FV) (v : Q) (band : Q → Q × Q) : Option String :=
   match impl with
   | .fin s =>
-    let lo := if s - T < 0 then 0 else s - T
-    let hi := s + T
+    let lo := (band s).1
+    let hi := (band s).2
     if s ≥ 0 ∧ lo * lo ≤ v ∧ v ≤ hi * hi then none
     else some s!"{sig} reported value differs from its definition by more than the rounding tolerance"
   | .nan => some s!"{sig}-nan NaN reported where the definition is finite"
@@ -451,7 +482,7 @@ def chkC13With (mr : Option MatRef) (inp : Input) (o : ImplOut) : Option String 
                       chkVal "C13:model-coef" cv.1 cv.2 tol) (o.coefs.zip t.c) t.ec)
           match cc with
           | some s => some s
-          | none => chkRoot "C13:resid-stddev" o.rsd t.rvar t.rtol
+          | none => chkRoot "C13:resid-stddev" o.rsd t.rvar (residBand t.B t.x t.c (finVals o.coefs) t.r)
 
 /-- The property oracle: the implementation's values against the definitions.
 `none` = satisfied; `some "<signature> <detail>"` = violated.  Domain: `1 ≤ npre < len(data)`;
@@ -560,7 +591,7 @@ def cmpModel (mr : Option MatRef) (inp : Input) (m : Out) (o : ImplOut) : Option
   | some c, some v, some t =>
     if c.length != o.coefs.length then some "coef-count" else
     if !(List.zipWith (fun (cv : FV × Q) tol => fvEqTol cv.1 cv.2 tol) (o.coefs.zip c) t.ec).all id then some "coefs" else
-    (match chkRoot "rsd" o.rsd v t.rtol with
+    (match chkRoot "rsd" o.rsd v (residBand t.B t.x t.c (finVals o.coefs) t.r) with
      | none => none
      | some _ => some "rsd")
   | none, none, none =>
